@@ -1,6 +1,7 @@
 """C02 units (CrossHair): option-list grammar actions with symbolic keys/values; generated per production."""
 import os
 from engines.common import ch_obligations, VERIF
+HARNESS_STATIC = os.path.join(VERIF, 'harness', 'ch_C02.py')
 
 T = '''
 def act_{i}(two: bool, kind1: int, kind2: int, s: str, n: int, kw1: int, kw2: int) -> bool:
@@ -51,4 +52,24 @@ def add(run, tier):
     specs = [dict(fn='act_%d' % i, twin=None, replay=mk_replay(i), name='U2:%s' % str(p).split('  [')[0][:70]) for i, p in enumerate(prods)]
     run.functions.append('grammar actions of %d option-list productions (symbolic option dict) via SLY YaccProduction' % len(prods))
     run.assumptions.append('U2 units: option names come from a 10-word vocabulary (the names the actions look for + 2 unknown ones), chosen by symbolic index; option values are a symbolic str (<= 3/4 chars) / symbolic int / Identifier / bool / None / list; other children take one default value each')
-    ch_obligations(run, path, specs, cond_to=150 if tier == 'quick' else 600, path_to=40)
+    def r_lex(args):
+        from mindsdb_sql import parse_sql
+        from mindsdb_sql.exceptions import ParsingException
+        from sly.lex import LexError
+        import importlib
+        ch = importlib.import_module('harness.ch_C02').CHARS[args['k']]
+        args = dict(args, ch=ch)
+        sql = 'select ' + ('a\n' if args['nl'] else 'a ') + ch + ' b'
+        try:
+            parse_sql(sql, 'mindsdb')
+            return False, {'sql': sql}, 'x', 'accepted'
+        except (LexError, ParsingException):
+            return False, {'sql': sql}, 'x', 'lexer/parsing error as expected'
+        except Exception as e:  # noqa
+            return True, {'sql': sql, 'error': '%s: %s' % (type(e).__name__, e)}, 'lexer-error-reporter:%s' % type(e).__name__, \
+                'illegal character %r makes parse_sql raise %s: %s' % (args['ch'], type(e).__name__, e)
+    specs.append(dict(fn='lexer_error_unit', twin=None, replay=r_lex, name='U1:MindsDBLexer.error on every illegal ASCII character and 2 code points per Unicode category', module=HARNESS_STATIC))
+    run.functions.append('MindsDBLexer.error (illegal character by symbolic index into the representative set, symbolic position / line break; native leaves)')
+    static = [s_ for s_ in specs if s_.get('module')]
+    ch_obligations(run, path, [s_ for s_ in specs if not s_.get('module')], cond_to=150 if tier == 'quick' else 600, path_to=40)
+    ch_obligations(run, HARNESS_STATIC, static, cond_to=150 if tier == 'quick' else 600, path_to=40)
